@@ -9,8 +9,9 @@
 -/
 import SoundeventModel.Bounds
 import Proofs.Lemmas.Bounds
+import Proofs.Lemmas.Centroid
 namespace SE.Proofs.C05
-open SE SE.Bnd SE.Proofs.Lemmas.Bounds
+open SE SE.Bnd SE.Proofs.Lemmas.Bounds SE.Proofs.Lemmas.Centroid
 
 /-! ### bounds -/
 
@@ -342,7 +343,7 @@ theorem C05_features_consistent (g : Geom) (b : Bounds) (ho : Ordered g) (hb : g
   | timeStamp t =>
     have := (C05_time_only_full_band t 0 0).1
     rw [this] at hb; cases hb
-    exact ⟨_, rfl, rfl, by simp [ofBounds, fDuration]; grind⟩
+    exact ⟨_, rfl, rfl, by simp [ofBounds, fDuration]⟩
   | timeInterval s e =>
     have := (C05_time_only_full_band 0 s e).2 ho
     rw [this] at hb; cases hb
@@ -363,7 +364,7 @@ theorem C05_features_consistent (g : Geom) (b : Bounds) (ho : Ordered g) (hb : g
     refine ⟨_, hf, rfl, ?_⟩
     intro nv hnv
     simp only [List.mem_cons, List.not_mem_nil, or_false] at hnv
-    rcases hnv with rfl | rfl | rfl | rfl <;> simp [ofBounds, fDuration, fLow, fHigh, fBandwidth] <;> grind
+    rcases hnv with rfl | rfl | rfl | rfl <;> simp [ofBounds, fDuration, fLow, fHigh, fBandwidth]
   | lineString pts =>
     have hf : features (.lineString pts) = some (boundsFeatures b) := by
       simp only [features, hs, Option.map, Geom.tag]
@@ -522,5 +523,192 @@ example : toShape (.polygon [[(1, 2), (2, 2), (1, 2)]]) = .polygon [(1, 2), (2, 
 example : RingsClosed (.polygon [[(1, 2), (5, 2), (3, 7), (1, 2)]]) = true := by decide +kernel
 example : boundsHolds (.timeInterval 1 3) ⟨1, 0, 3, MAXF⟩ = true := by decide +kernel
 example : boundsHolds (.timeInterval 1 3) ⟨1, 0, 3, 4⟩ = false := by decide +kernel
+
+
+/-! ### review additions: constructor calls, ring order, degenerate positions, centroid -/
+
+/-- the conversion is the shapely constructor call of `toCall` (tied symbolically to every
+    `*_to_shapely`), realised by shapely -/
+theorem C05_conversion_calls (g : Geom) : toShape g = (toCall g).realize := by
+  cases g <;> simp [toShape, toCall, ShCall.realize, polyOf, List.map_map, Function.comp_def]
+
+/-- the rectangle of a box / an interval, vertex by vertex: counter-clockwise from
+    (end, low), closed; four vertices only when start = end (first and last corner coincide) -/
+theorem C05_conversion_box_ring (s l e h : Rat) :
+    (s ≠ e → toShape (.boundingBox s l e h) = .polygon [(e, l), (e, h), (s, h), (s, l), (e, l)] []) ∧
+    (s = e → toShape (.boundingBox s l e h) = .polygon [(e, l), (e, h), (s, h), (s, l)] []) ∧
+    (s ≠ e → toShape (.timeInterval s e) = .polygon [(e, 0), (e, MAXF), (s, MAXF), (s, 0), (e, 0)] []) ∧
+    (s = e → toShape (.timeInterval s e) = .polygon [(e, 0), (e, MAXF), (s, MAXF), (s, 0)] []) := by
+  refine ⟨?_, ?_, ?_, ?_⟩
+  · intro hse; simp [toShape, boxRing, closeRing, hse]
+  · intro hse; simp [toShape, boxRing, closeRing, hse]
+  · intro hse; simp [toShape, boxRing, closeRing, hse]
+  · intro hse; simp [toShape, boxRing, closeRing, hse]
+
+/-- shapely keeps the order of the stored ring: the converted ring is the stored one, or the
+    stored one with its first vertex appended; with at least three stored vertices (the data
+    model's minimum) it is closed -/
+theorem C05_conversion_ring_order (r : List Pt) :
+    (closeRing r = r ∨ ∃ p, r.head? = some p ∧ closeRing r = r ++ [p]) ∧
+    (3 ≤ r.length → ringClosed (closeRing r) = true) := by
+  cases r with
+  | nil => simp [closeRing]
+  | cons p ps =>
+    constructor
+    · simp only [closeRing]
+      split
+      · exact Or.inr ⟨p, rfl, rfl⟩
+      · exact Or.inl rfl
+    · intro hl
+      simp only [closeRing]
+      split
+      · simp at hl
+        have hlast : (p :: (ps ++ [p])).getLast? = some p := by
+          rw [← List.cons_append, List.getLast?_append]; simp
+        simp [ringClosed]; exact ⟨hlast, hl⟩
+      · rename_i hc
+        simp only [not_or, not_not, Nat.not_lt] at hc
+        simp [ringClosed, hc.1]; simpa using hc.2
+
+/-- degenerate bounds (a point, a box of zero extent): all nine positions coincide -/
+theorem C05_points_degenerate (lib : String → Pt) (b : Bounds) (pos : String)
+    (ht : b.st = b.en) (hf : b.lo = b.hi) (hp : pos ∈ boundsPositions) :
+    pointAt lib pos b = .ok (b.st, b.lo) := by
+  obtain ⟨t1, t2, t3, t4, t5, t6, t7, t8, t9⟩ := C05_points_table lib b
+  have m1 : (b.st + b.en) / 2 = b.st := by rw [← ht]; grind
+  have m2 : (b.lo + b.hi) / 2 = b.lo := by rw [← hf]; grind
+  rw [mem_boundsPositions] at hp
+  rcases hp with rfl | rfl | rfl | rfl | rfl | rfl | rfl | rfl | rfl
+  · rw [t1]
+  · rw [t2, ← ht]
+  · rw [t3, ← hf]
+  · rw [t4, ← ht, ← hf]
+  · rw [t5, m2]
+  · rw [t6, m2, ← ht]
+  · rw [t7, m1, ← hf]
+  · rw [t8, m1]
+  · rw [t9, m1, m2]
+
+/-- end to end: the corner positions of a geometry are (min/max time, min/max frequency) of its
+    coordinates, the centre their half-sums -/
+theorem C05_points_from_coordinates (lib : String → Pt) (g : Geom) (b : Bounds) (hb : g.bounds = some b) :
+    ∃ t0 f0 t1 f1,
+      listMin (g.boundPts.map (·.1)) = some t0 ∧ listMin (g.boundPts.map (·.2)) = some f0 ∧
+      listMax (g.boundPts.map (·.1)) = some t1 ∧ listMax (g.boundPts.map (·.2)) = some f1 ∧
+      pointAt lib "bottom-left" b = .ok (t0, f0) ∧ pointAt lib "bottom-right" b = .ok (t1, f0) ∧
+      pointAt lib "top-left" b = .ok (t0, f1) ∧ pointAt lib "top-right" b = .ok (t1, f1) ∧
+      pointAt lib "center" b = .ok ((t0 + t1) / 2, (f0 + f1) / 2) := by
+  obtain ⟨c1, c2, c3, c4⟩ := C05_bounds_minmax_columns g b hb
+  exact ⟨b.st, b.lo, b.en, b.hi, c1, c2, c3, c4, rfl, rfl, rfl, rfl, rfl⟩
+
+/-- every vertex the envelope ranges over lies inside the bounds (the post-condition of
+    `point_on_surface` for shapes of dimension 0 and 1, where GEOS answers a vertex: contract
+    `isVertex`, evaluated at run time) -/
+theorem C05_vertex_inside (g : Geom) (b : Bounds) (p : Pt) (hb : g.bounds = some b)
+    (hv : isVertex g p = true) : inside b p = true := by
+  have hm : p ∈ g.boundPts := by simpa [isVertex] using hv
+  have := (C05_bounds_minmax g b hb).contains p hm
+  simpa [inside, and_assoc] using this
+
+/-- the type dispatch of `compute_geometric_features` / `geometry_to_shapely`: total on the nine
+    geometry types, `NotImplementedError` on any other tag -/
+theorem C05_dispatch (g : Geom) (tag : String) :
+    dispatch g.tag = .ok () ∧ (tag ∉ featureTypes → dispatch tag = .error .notImpl) := by
+  constructor
+  · have : g.tag ∈ featureTypes := C05_feature_table_total featureTypes (fun _ h => h) g
+    simp [dispatch, this]
+  · intro h; simp [dispatch, h]
+
+/-- **centroid inside the bounds** (GEOS's algorithm, any non-negative segment lengths), for
+    every geometry whose converted shape is tame: no holes and every shell fan-convex.
+    Full statement (not proved): the same for every simple polygon with holes inside its shell;
+    it is false for self-intersecting polygons (known finding C05-centroid-self-intersecting). -/
+theorem C05_centroid_inside_partial (len : Pt → Pt → Rat) (hlen : LenOK len) (g : Geom) (b : Bounds)
+    (hb : g.bounds = some b) (ht : (toShape g).Tame = true) :
+    ∃ c, (toShape g).centroid len = some c ∧ inside b c = true := by
+  have hs : (toShape g).bounds = some b := by rw [C05_bounds_via_shape]; exact hb
+  obtain ⟨c, hc, hin⟩ := centroid_inside len hlen (toShape g) b hs ht
+  exact ⟨c, hc, (inside_iff b c).mpr hin⟩
+
+/-- which geometries are tame: everything without area, and boxes / intervals as stored by the
+    data model (start ≤ end, low ≤ high) -/
+theorem C05_tame_types (g : Geom) (ho : Ordered g)
+    (hp : ∀ rings, g ≠ .polygon rings) (hm : ∀ ps, g ≠ .multiPolygon ps) :
+    (toShape g).Tame = true := by
+  have hM : (0 : Rat) ≤ MAXF := by decide +kernel
+  have hbox : ∀ x0 y0 x1 y1 : Rat, x0 ≤ x1 → y0 ≤ y1 → fanSameSign (boxRing x0 y0 x1 y1) = true := by
+    intro x0 y0 x1 y1 hx hy
+    have hA : 0 ≤ (x1 - x0) * (y1 - y0) := mul_nonneg (by linarith) (by linarith)
+    simp only [fanSameSign, Bool.or_eq_true, List.all_eq_true, decide_eq_true_eq]
+    left
+    intro t ht
+    simp only [boxRing, closeRing] at ht
+    split at ht <;>
+      simp [fanTerms, segs, tri2] at ht <;>
+      (rcases ht with rfl | rfl | rfl | rfl <;> simp <;> nlinarith)
+  cases g with
+  | polygon rings => exact absurd rfl (hp rings)
+  | multiPolygon ps => exact absurd rfl (hm ps)
+  | timeInterval s e =>
+    simp only [toShape, Shape.Tame, Shape.polys, List.all_cons, List.all_nil, Bool.and_true,
+      List.isEmpty_nil, Bool.true_and]
+    exact hbox s 0 e MAXF ho hM
+  | boundingBox s l e h =>
+    simp only [toShape, Shape.Tame, Shape.polys, List.all_cons, List.all_nil, Bool.and_true,
+      List.isEmpty_nil, Bool.true_and]
+    exact hbox s l e h ho.1 ho.2
+  | _ => rfl
+
+/-- … hence for seven of the nine types every one of the ten modelled positions of
+    `get_geometry_point` (the nine of the bounds and the centroid) lies inside the bounds -/
+theorem C05_getPoint_inside_partial (len : Pt → Pt → Rat) (hlen : LenOK len) (pos_ : Pt) (g : Geom)
+    (b : Bounds) (name : String) (hb : g.bounds = some b) (ht : (toShape g).Tame = true)
+    (hn : name ∈ boundsPositions ∨ name = "centroid") :
+    ∃ p, getPoint len pos_ g name = .ok p ∧ inside b p = true := by
+  rcases hn with hn | rfl
+  · have hne : name ≠ "centroid" := by
+      intro h; subst h; simp [boundsPositions] at hn
+    obtain ⟨p, hp, hin⟩ := C05_points_inside_geometry (fun _ => pos_) g b name hb hn
+    exact ⟨p, by simp [getPoint, hne, hb, hp], hin⟩
+  · obtain ⟨c, hc, hin⟩ := C05_centroid_inside_partial len hlen g b hb ht
+    exact ⟨c, by simp [getPoint, hc], hin⟩
+
+/-- the centroid of a point is the point, of a time stamp the middle of the band -/
+theorem C05_centroid_point (len : Pt → Pt → Rat) (t f : Rat) :
+    (toShape (.point t f)).centroid len = some (t, f) := by
+  simp [toShape, Shape.centroid, Shape.areaTerms, Shape.polys, Shape.lineTerms, Shape.lines,
+    Shape.ptTerms, wmean, wsum, wsumX, wsumY]
+
+theorem C05_centroid_time_stamp (len : Pt → Pt → Rat) (t : Rat) (hl : 0 < len (t, 0) (t, MAXF)) :
+    (toShape (.timeStamp t)).centroid len = some (t, MAXF / 2) := by
+  have hne : len (t, 0) (t, MAXF) ≠ 0 := ne_of_gt hl
+  simp [toShape, Shape.centroid, Shape.areaTerms, Shape.polys, Shape.lineTerms, Shape.lines,
+    segTerms, segs, wmean, wsum, wsumX, wsumY, hl]
+  exact ⟨mul_div_cancel_left₀ _ hne, mul_div_cancel_left₀ _ hne⟩
+
+/-- the centroid of a non-degenerate box / interval is the `center` position of its bounds -/
+theorem C05_centroid_box (len : Pt → Pt → Rat) (lib : String → Pt) (s l e h : Rat) (h1 : s < e) (h2 : l < h) :
+    (toShape (.boundingBox s l e h)).centroid len = some ((s + e) / 2, (l + h) / 2) ∧
+    (toShape (.timeInterval s e)).centroid len = some ((s + e) / 2, (0 + MAXF) / 2) ∧
+    pointAt lib "center" ⟨s, l, e, h⟩ = .ok ((s + e) / 2, (l + h) / 2) :=
+  ⟨centroid_boxRing len s l e h h1 h2, centroid_boxRing len s 0 e MAXF h1 (by decide +kernel), rfl⟩
+
+-- non-vacuity of the review additions
+example : (toShape (.polygon [[(0, 0), (4, 0), (4, 3), (0, 0)]])).Tame = true := by decide +kernel
+example : (toShape (.polygon [[(0, 0), (4, 4), (4, 0), (0, 3), (0, 0)]])).Tame = false := by decide +kernel
+-- the self-intersecting polygon of the known finding: GEOS's formula leaves the bounds
+example : (toShape (.polygon [[(0, 0), (4, 4), (4, 0), (0, 3), (0, 0)]])).centroid (fun _ _ => 1)
+    = some (20 / 3, 7 / 3) := by decide +kernel
+example : (toShape (.polygon [[(0, 0), (4, 0), (4, 3), (0, 0)]])).centroid (fun _ _ => 1)
+    = some (8 / 3, 1) := by decide +kernel
+-- a polygon with a hole (not tame, still computed): the hole counts negative
+example : (toShape (.polygon [[(0, 0), (8, 0), (8, 8), (0, 8), (0, 0)], [(0, 0), (4, 0), (4, 4), (0, 4), (0, 0)]])).centroid
+    (fun _ _ => 1) = some (14 / 3, 14 / 3) := by decide +kernel
+-- degenerate polygon: no area, the line centroid takes over
+example : (toShape (.polygon [[(1, 2), (3, 2), (1, 2)]])).centroid (fun p q => if p = q then 0 else 2)
+    = some (2, 2) := by decide +kernel
+example : LenOK (fun _ _ => 1) := fun _ _ => by show (0 : Rat) ≤ 1; decide +kernel
+example : isVertex (.lineString [(1, 2), (3, 4)]) (3, 4) = true := by decide +kernel
+example : dispatch "Circle" = .error .notImpl := by decide
 
 end SE.Proofs.C05
